@@ -41,6 +41,12 @@ def main():
     rep.add_mc("TLC simulation of Rtamt.tla (Parse/Pastify/Update/Reset): behaviours generated for replay", bres, exhaustive=False)
     if bres["violated"]:
         rep.mc_violation("C10_sim", bres)
+    # ... and with update() calls that leave variables out (Mode = "partial")
+    bres2, behs2 = behaviours.simulate("C10_sim_partial", U, ["x", "y"], num=(60 if quick else 500), depth=(7 if quick else 9), seed=core.seed() + 7, mode="partial")
+    rep.add_mc("TLC simulation of Rtamt.tla with partial updates: behaviours generated for replay", bres2, exhaustive=False)
+    if bres2["violated"]:
+        rep.mc_violation("C10_sim_partial", bres2)
+    behs = behs + behs2
     bcases = behaviours.to_cases(behs, ["x", "y"])
     btr = runner.run_cases(bcases)
     bvs, bgen, bdist = core.validate("C10_sim_replay", btr)
